@@ -110,6 +110,30 @@ def run_case(c):
             fail(fn, 'length', f'{len(D) - 1} sites instead of {L}')
             return dict(failures=fails, nontrivial=True, key=key)
         M = oracle.mpo_dense(mpo.A)
+        # the operator Schmidt rank is taken from the *documented* operator (independent reference of the C06 stand-in) where one
+        # exists for the model; the dense form of the MPO itself would follow a wrong construction
+        try:
+            from . import h_ham
+            base = name.split(':')[0]
+            ref = None
+            if base == 'heisenberg_xxz_mpo':
+                ref = h_ham.xxz_ref(*args)
+            elif base == 'heisenberg_xxz_spin1_mpo':
+                ref = h_ham.xxz_ref(*args, two_s=2)
+            elif base == 'ising_mpo':
+                ref = h_ham.ising_ref(*args)
+            elif base == 'bose_hubbard_mpo':
+                ref = h_ham.bose_hubbard_ref(*args)
+            elif base == 'fermi_hubbard_mpo':
+                ref = h_ham.fermi_hubbard_ref(*args)
+            if ref is not None:
+                ref = np.asarray(ref.todense() if hasattr(ref, 'todense') else ref)
+                if ref.shape == M.shape and np.linalg.norm(ref - M) <= 1e-9 * max(1.0, np.linalg.norm(ref)):
+                    pass                     # same operator: ranks of either are the same
+                elif ref.shape == M.shape:
+                    M = ref                  # the construction deviates from the documented operator (reported by C06): rank of the documented one
+        except Exception:
+            pass
         ranks = hg.schmidt_ranks(M, d, L)
         decided = True
         for l in range(1, L):
@@ -118,8 +142,6 @@ def run_case(c):
             if not clean:
                 decided = False          # no clean gap in the singular values: the numerical rank is not trustworthy, no verdict
                 continue
-            # D[l] < r is impossible for an exact MPO of the dense operator contracted from it: would be a harness error
-            assert D[l] >= r, (D, ranks)
             if D[l] != r:
                 fail(fn, 'schmidt_rank', f'{fn}{args}: bond dimension {D[l]} at cut {l} of {L}, operator Schmidt rank {r} '
                      f'(smallest kept singular value {kept:.2e}, largest discarded {disc:.2e} relative); bond dims {D}, ranks {[x[0] for x in ranks]}')
